@@ -49,14 +49,20 @@ def pair_expected(pre, post, dsteps, dt, lr_post, lr_pre, tc_post, tc_pre, mode)
     return dw
 
 
-def run_pair(cls, pre, post, dsteps, maxsteps, dt, lr_post, lr_pre, tc_post, tc_pre, mode, delayed=True, check_parts=True, step=None):
+def run_pair(cls, pre, post, dsteps, maxsteps, dt, lr_post, lr_pre, tc_post, tc_pre, mode, delayed=True, check_parts=True, step=None, per_cell=False):
     T, B, I = pre.shape
     O = post.shape[2]
     conn, neuron, layer = build(I, O, B, dt, dsteps, maxsteps)
-    tr = cls(lr_post, lr_pre, tc_post, tc_pre, delayed=delayed, interp_tolerance=1e-4, trace_mode=mode, batch_reduction=torch.sum)
-    tr.register_cell("cell", layer.cell)
+    if per_cell:
+        # the documented cell-by-cell override: the trainer is built with DECOY hyper-parameters (opposite signs, other time
+        # constants), the real ones are given when the cell is registered
+        tr = cls(-lr_post, -lr_pre, tc_post + 3.0, tc_pre + 2.0, delayed=delayed, interp_tolerance=1e-4, trace_mode=mode, batch_reduction=torch.sum)
+        tr.register_cell("cell", layer.cell, lr_post=lr_post, lr_pre=lr_pre, tc_post=tc_post, tc_pre=tc_pre)
+    else:
+        tr = cls(lr_post, lr_pre, tc_post, tc_pre, delayed=delayed, interp_tolerance=1e-4, trace_mode=mode, batch_reduction=torch.sum)
+        tr.register_cell("cell", layer.cell)
     w0 = conn.weight.clone().double()
-    inp = dict(trainer=cls.__name__, pre=pre.int().tolist(), post=post.int().tolist(), delays=dsteps.tolist(), dt=dt, lr_post=lr_post, lr_pre=lr_pre, mode=mode, delayed=delayed)
+    inp = dict(trainer=cls.__name__, pre=pre.int().tolist(), post=post.int().tolist(), delays=dsteps.tolist(), dt=dt, lr_post=lr_post, lr_pre=lr_pre, mode=mode, delayed=delayed, per_cell_hyperparameters=per_cell)
     with torch.no_grad():
         for t in range(T):
             layer(pre[t].float(), neuron_kwargs={"override": post[t]})
@@ -95,6 +101,42 @@ def triplet_expected(pre, post, dsteps, dt, a_post, b_post, a_pre, b_pre, tc_pf,
             tot += a_pre * pair * (1 + abs(b_pre / a_pre) * slow)
         dw[o, i] += tot
     return dw
+
+
+def per_cell_equivalence(cls, names, values, pre, post, step, extra=None, maxdelay=0.0, param="weight"):
+    """relational oracle for the documented cell-by-cell override: a trainer built with `values` and a trainer built with
+    decoys (opposite-sign learning rates, other time constants) whose cell is registered with `values` must change the
+    weights identically over the same spike history"""
+    T, B, I = pre.shape
+    O = post.shape[2]
+    out = []
+    for per_cell in (False, True):
+        if maxdelay:
+            conn = LinearDense((I,), (O,), 1.0, synapse=DeltaCurrent.partialconstructor(1.0), delay=maxdelay, batch_size=B)
+            conn.updater = conn.defaultupdater()
+            conn.weight = torch.full((O, I), 0.5)
+            conn.delay = torch.tensor([[0.0, 2.0, 0.5], [1.5, 2.0, 1.0]])[:O, :I].clone()
+            neuron = ExactNeuron((O,), 1.0, rest_v=-60.0, thresh_v=-45.0, batch_size=B)
+            layer = Serial(conn, neuron)
+        else:
+            conn, neuron, layer = build(I, O, B, 1.0, torch.zeros(O, I, dtype=torch.long), 0)
+        if per_cell:
+            decoy = [(-v if n.startswith("lr") else v + 2.5) for n, v in zip(names, values)]
+            tr = cls(*decoy, batch_reduction=torch.sum, **(extra or {}))
+            tr.register_cell("cell", layer.cell, **dict(zip(names, values)))
+        else:
+            tr = cls(*values, batch_reduction=torch.sum, **(extra or {}))
+            tr.register_cell("cell", layer.cell)
+        w0 = getattr(conn, param).clone().double()
+        with torch.no_grad():
+            for t in range(T):
+                layer(pre[t].float(), neuron_kwargs={"override": post[t]})
+                step(tr, t)
+            conn.update()
+        out.append(getattr(conn, param).double() - w0)
+    if not torch.allclose(out[0], out[1], atol=1e-6, rtol=1e-5):
+        return {"what": f"{'C18' if maxdelay else 'C09'}/{cls.__name__}/per_cell_hyperparameters_differ_from_constructor_ones", "input": dict(trainer=cls.__name__, names=names, values=values, pre=pre.int().tolist(), post=post.int().tolist()), "expected": out[0].tolist(), "actual": out[1].tolist()}
+    return None
 
 
 def run_triplet(pre, post, dsteps, maxsteps, dt, a_post, b_post, a_pre, b_pre, delayed=True):
@@ -309,6 +351,22 @@ def sweep_c08(tier, seed):
             for delayed in (True, False):
                 cases += 1
                 add(run_pair(cls, pre, post, ds, 3, rnd.choice([1.0, 0.5]), rnd.choice([0.5, -0.5]), rnd.choice([0.3, -0.3]), 12.0, 9.0, rnd.choice(["cumulative", "nearest"]), delayed=delayed))
+        # hyper-parameters given per cell, decoys of the opposite sign on the trainer (all four sign modes)
+        for lp, lq in ((0.5, 0.3), (-0.5, -0.3), (0.5, -0.3), (-0.5, 0.3)):
+            cases += 2
+            f = run_pair(STDP, pre, post, ds, 3, 1.0, lp, lq, 12.0, 9.0, "cumulative", per_cell=True)
+            add(None if f is None else dict(f, what=f["what"] + "/per_cell"))
+            f = run_pair(MSTDP, pre, post, ds, 3, 1.0, lp, lq, 12.0, 9.0, "cumulative", check_parts=False, per_cell=True, step=lambda tr: tr(-1.0, 1.0))
+            # a reward of -1 flips the direction: expected is the negated pair sum
+            if f is not None and f["what"].endswith("pair_sum"):
+                neg = [[-v for v in row] for row in f["expected"]]
+                f = None if all(abs(a - e) < 2e-4 + 1e-4 * abs(e) for ra, re_ in zip(f["actual"], neg) for a, e in zip(ra, re_)) else dict(f, expected=neg, what=f["what"].replace("/MSTDP/pair_sum", "/MSTDP/negative_reward_pair_sum/per_cell"))
+            add(f)
+        for lp, lq in ((0.5, 0.3), (-0.5, -0.3), (0.5, -0.3), (-0.5, 0.3)):
+            for sig in (1.0, -0.75):
+                cases += 2
+                add(per_cell_equivalence(MSTDPET, ["lr_post", "lr_pre", "tc_post", "tc_pre", "tc_eligibility"], [lp, lq, 12.0, 9.0, 20.0], pre, post, lambda tr, t, sig=sig: tr(sig, 1.0)))
+                add(per_cell_equivalence(MSTDP, ["lr_post", "lr_pre", "tc_post", "tc_pre"], [lp, lq, 12.0, 9.0], pre, post, lambda tr, t, sig=sig: tr(sig, 1.0)))
         cases += 4
         add(run_triplet(pre, post, ds, 3, 1.0, 0.6, 0.4, -0.5, 0.3, delayed=True))
         add(run_triplet(pre, post, torch.zeros(2, 3, dtype=torch.long), 0, 1.0, -0.6, 0.4, 0.5, 0.3, delayed=False))
@@ -398,6 +456,22 @@ def sweep_c18(tier, seed):
                 f = run_da(pre, post, ds, 2.0, 1.0, signs[0], signs[1], 15.0, 11.0, override=override)
                 if f is not None and not any(x["what"] == f["what"] for x in failures):
                     failures.append(f)
+    from inferno.learn import DelayAdjustedMSTDP, DelayAdjustedMSTDPD, DelayAdjustedSTDPD
+
+    rnd2 = random.Random(seed + 7)
+    for _ in range(3 if tier == "quick" else 20):
+        pre, post = rand_trains(rnd2, 12, 1, 3, 2, 0.35)
+        for lp, ln in ((0.5, -0.4), (-0.5, 0.4), (0.5, 0.3), (-0.5, -0.3)):
+            for cls, names, vals, par, stp in (
+                (DelayAdjustedSTDP, ["lr_pos", "lr_neg", "tc_pos", "tc_neg"], [lp, ln, 15.0, 11.0], "weight", lambda tr, t: tr()),
+                (DelayAdjustedSTDPD, ["lr_neg", "lr_pos", "tc_neg", "tc_pos"], [ln, lp, 11.0, 15.0], "delay", lambda tr, t: tr()),
+                (DelayAdjustedMSTDP, ["lr_pos", "lr_neg", "tc_pos", "tc_neg"], [lp, ln, 15.0, 11.0], "weight", lambda tr, t: tr(-0.75, 1.0)),
+                (DelayAdjustedMSTDPD, ["lr_neg", "lr_pos", "tc_neg", "tc_pos"], [ln, lp, 11.0, 15.0], "delay", lambda tr, t: tr(0.5, 1.0)),
+            ):
+                cases += 1
+                f = per_cell_equivalence(cls, names, vals, pre, post, stp, maxdelay=2.0, param=par)
+                if f is not None and not any(x["what"] == f["what"] for x in failures):
+                    failures.append(f)
     fd, nd = trainer_defaults(only=("DelayAdjustedSTDP", "DelayAdjustedSTDPD", "DelayAdjustedMSTDP", "DelayAdjustedMSTDPD", "KernelSTDP", "DelayAdjustedKernelSTDP", "DelayAdjustedKernelSTDPD"))
     failures.extend(fd)
     cases += nd
@@ -408,7 +482,8 @@ def sweep_c09(tier, seed):
     f8, n8 = sweep_c08(tier, seed)
     failures = [x for x in f8 if x["what"].startswith("C09/")]
     # "the parts net to the signed rule": a reward-modulated step whose applied change differs from the rule is a C09 failure too
-    failures += [dict(x, what="C09/net_is_signed_rule/" + x["what"].split("/", 1)[1]) for x in f8 if x["what"].startswith("C08/MSTDP/signal_scaled_sum")]
+    failures += [dict(x, what="C09/net_is_signed_rule/" + x["what"].split("/", 1)[1]) for x in f8 if x["what"].startswith("C08/MSTDP/signal_scaled_sum") or x["what"].endswith("/per_cell")]
+    failures += [x for x in f8 if "per_cell_hyperparameters" in x["what"] and x not in failures]
     cases = n8
     for param in ("weight", "bias", "delay"):
         for above in (True, False):
